@@ -4,20 +4,22 @@ Copies /tmp/seed/<ID>/_out/<mN> to /verif/seeded/<ID>-<mN>/ and writes meta.json
 import json, os, shutil, sys, subprocess
 pid, m, detected, by = sys.argv[1:5]
 needs = " ".join(sys.argv[5:])
-src = "/tmp/seed/%s/_out/%s" % (pid, m)
-dst = "/verif/seeded/%s-%s" % (pid, m)
+ROOT = os.environ.get("SEED_ROOT", "/tmp/seed")
+TAG = os.environ.get("SEED_TAG", "")
+src = "%s/%s/_out/%s" % (ROOT, pid, m)
+dst = "/verif/seeded/%s-%s%s" % (pid, TAG, m)
 if os.path.exists(dst):
     shutil.rmtree(dst)
 shutil.copytree(src, dst)
-log = "/tmp/seed/results/%s-%s.log" % (pid, m)
+log = "%s/results/%s-%s.log" % (ROOT, pid, m)
 ran = open(log).read() if os.path.exists(log) else ""
-base = subprocess.run(["git", "-C", "/tmp/seed/%s" % pid, "rev-parse", "--short", "HEAD"], stdout=subprocess.PIPE).stdout.decode().strip()
+base = subprocess.run(["git", "-C", "%s/%s" % (ROOT, pid), "rev-parse", "--short", "HEAD"], stdout=subprocess.PIPE).stdout.decode().strip()
 meta = {
     "property": pid,
     "breaks": open(os.path.join(src, "README.txt")).read()[:1500] if os.path.exists(os.path.join(src, "README.txt")) else "",
     "needs_to_manifest": needs,
     "base_commit_of_patch": base,
-    "confirmed": "in scratch worktree /tmp/seed/%s: clean tree -> demo PASS; patch applied -> `make check` 89/89 pass, demo FAIL (tools/confirm_seed.sh)" % pid,
+    "confirmed": "in scratch worktree " + ROOT + "/%s: clean tree -> demo PASS; patch applied -> `make check` 89/89 pass, demo FAIL (tools/confirm_seed.sh)" % pid,
     "what_i_ran": "tools/seed_eval.sh: VERIF_REPO=<patched scratch worktree> ./check %s quick" % by,
     "detected": detected,
     "detected_by": by,
